@@ -590,3 +590,216 @@ Proof.
   exists rest. cbn [frames_wire]. split; [|constructor; assumption].
   rewrite <- !app_assoc. rewrite <- Hr. exact Es.
 Qed.
+
+(** * TFramedTransport.Read as a public API: any state, any buffer length *)
+Definition read_post (maxlen : Z) (st : fstate) (k : Z) (r : rd * fstate) : Prop :=
+  exists d e st', r = (Rd d e, st') /\ fst_ok st' /\ f_size st' <= maxlen /\
+    final_of st' = final_of st /\
+    zlen d <= k /\ (0 < k -> e = None -> d <> []) /\
+    (length (avail st') + length d <= length (avail st))%nat.
+
+Lemma read_tail_total maxlen st k : fst_ok st -> f_size st <= maxlen -> 0 <= k -> k <= f_size st ->
+  read_post maxlen st k (read_tail st k).
+Proof.
+  intros Hst Hm Hk Hle. unfold read_post.
+  destruct (Z.eq_dec k 0) as [->|Hnz].
+  - pose proof Hst as (Hck & Hsz & Hbo).
+    unfold read_tail. rewrite bufio_read_zero. cbv beta iota.
+    assert (E : (f_size st - zlen (@nil Z)) mod two32 = f_size st).
+    { rewrite zlen_nil, Z.sub_0_r. apply Z.mod_small. exact Hsz. }
+    exists [], None, st. rewrite E. destruct st as [sz b u]. cbn [f_size f_buf f_und].
+    repeat match goal with |- _ /\ _ => split end; auto; try lia; try (rewrite zlen_nil; lia); try (cbn; lia).
+  - destruct (read_tail_spec st k Hst ltac:(lia) Hle)
+      as (st' & Hst' & Hf' & [(Hnil & Hr & Ha & Hs)|(d & Hr & Hd & Hl & Hc & Hs)]); rewrite Hr.
+    + exists [], (Some (final_of st)), st'.
+      assert (length (avail st') + length (@nil Z) <= length (avail st))%nat by (rewrite Ha; cbn; lia).
+      assert (zlen (@nil Z) <= k) by (rewrite zlen_nil; lia).
+      repeat match goal with |- _ /\ _ => split end; auto; try lia; try discriminate.
+    + exists d, None, st'. pose proof (zlen_nonneg d).
+      assert (length (avail st') + length d <= length (avail st))%nat by (rewrite Hc, app_length; lia).
+      repeat match goal with |- _ /\ _ => split end; auto; try lia.
+Qed.
+
+Lemma after_hdr_total maxlen st : fst_ok st -> 0 <= maxlen -> f_size st <= maxlen ->
+  (exists e st', after_hdr maxlen st = inl (Rd [] (Some e), st') /\ fst_ok st' /\ f_size st' = 0 /\
+      final_of st' = final_of st /\ (length (avail st') <= length (avail st))%nat) \/
+  (exists st1, after_hdr maxlen st = inr st1 /\ fst_ok st1 /\ f_size st1 <= maxlen /\
+      final_of st1 = final_of st /\ (length (avail st1) <= length (avail st))%nat /\
+      (f_size st <> 0 -> st1 = st)).
+Proof.
+  intros Hst Hm0 Hm. pose proof Hst as (Hck & Hsz & Hbo). unfold after_hdr.
+  destruct (f_size st =? 0) eqn:Ez.
+  - apply Z.eqb_eq in Ez.
+    destruct (read_frame_header_spec maxlen (f_buf st) (f_und st) Hck)
+      as [[Hlt (b' & u' & Hr & Ha & Hok' & Hf)]|[Hle (b' & u' & Hr & Ha & Hok' & Hf)]];
+      rewrite <- avail_uavail in *; rewrite Hr.
+    + left. exists (final_of st), (mkF 0 b' u').
+      repeat match goal with |- _ /\ _ => split end; auto.
+      * unfold fst_ok, two32. cbn [f_und f_size]. rewrite avail_mk, Ha.
+        repeat split; auto; try lia. constructor.
+      * rewrite avail_mk, Ha. cbn. lia.
+    + pose proof (hdr_size_range (avail st) Hbo) as Hrange.
+      assert (Hbo' : bytes_ok (zdrop 4 (avail st))) by now apply zdrop_ok.
+      assert (Hlen : (length (zdrop 4 (avail st)) <= length (avail st))%nat).
+      { rewrite zdrop_drop, drop_length. lia. }
+      destruct (maxlen <? hdr_size (avail st)) eqn:Em.
+      * left. exists EOther, (mkF 0 b' u').
+        repeat match goal with |- _ /\ _ => split end; auto.
+        -- unfold fst_ok, two32. cbn [f_und f_size]. rewrite avail_mk, Ha. repeat split; auto; lia.
+        -- now rewrite avail_mk, Ha.
+      * apply Z.ltb_ge in Em. right. exists (mkF (hdr_size (avail st)) b' u').
+        repeat match goal with |- _ /\ _ => split end; auto.
+        -- unfold fst_ok. cbn [f_und f_size]. rewrite avail_mk, Ha. repeat split; auto; lia.
+        -- now rewrite avail_mk, Ha.
+        -- intros Hnz. contradiction.
+  - apply Z.eqb_neq in Ez. right. exists st.
+    repeat match goal with |- _ /\ _ => split end; auto.
+Qed.
+
+Lemma framed_read_gen_S ft f maxlen st k :
+  framed_read_gen ft (S f) maxlen st k =
+    match after_hdr maxlen st with
+    | inl r => r
+    | inr st1 =>
+      match (if f_size st1 <? k then
+               match make_bytes (f_size st1) with
+               | Ok _ =>
+                 match framed_read_gen ft f maxlen st1 (f_size st1) with
+                 | (Rd d None, st2) => inl (Rd d (Some EOther), st2)
+                 | (Rd d (Some e), st2) => if ft then inr st2 else inl (Rd d (Some e), st2)
+                 | (r, st2) => inl (r, st2)
+                 end
+               | Panic p => inl (RdPanic p, st1)
+               | _ => inl (RdFuel, st1)
+               end
+             else inr st1) with
+      | inl r => r
+      | inr st3 => read_tail st3 k
+      end
+    end.
+Proof. reflexivity. Qed.
+
+(** the inner call Read(tmp), len(tmp) = frameSize: never takes the "short" branch again *)
+Lemma framed_read_inner maxlen st : fst_ok st -> 0 <= maxlen -> f_size st <= maxlen ->
+  read_post maxlen st (f_size st) (framed_read_gen false 1 maxlen st (f_size st)).
+Proof.
+  intros Hst Hm0 Hm. pose proof Hst as (Hck & Hsz & Hbo). rewrite framed_read_gen_S.
+  destruct (after_hdr_total maxlen st Hst Hm0 Hm)
+    as [(e & st' & Hr & Hst' & Hz' & Hf' & Hl')|(st1 & Hr & Hst1 & Hm1 & Hf1 & Hl1 & Hsame)]; rewrite Hr.
+  - exists [], (Some e), st'.
+    assert (zlen (@nil Z) <= 0) by (rewrite zlen_nil; lia).
+    assert (length (avail st') + length (@nil Z) <= length (avail st))%nat by (cbn; lia).
+    repeat match goal with |- _ /\ _ => split end; auto; try lia; try discriminate.
+  - destruct (Z.eq_dec (f_size st) 0) as [Hz|Hnz].
+    + rewrite Hz. pose proof Hst1 as (_ & Hsz1 & _).
+      replace (f_size st1 <? 0) with false by (symmetry; apply Z.ltb_ge; lia).
+      destruct (read_tail_total maxlen st1 0 Hst1 Hm1 ltac:(lia) ltac:(lia))
+        as (d & e & st' & Hrt & Hst' & Hm' & Hf' & Hd & Hp & Hl').
+      rewrite Hrt. exists d, e, st'.
+      repeat match goal with |- _ /\ _ => split end; auto; try lia; try congruence.
+    + rewrite (Hsame Hnz), Z.ltb_irrefl.
+      destruct (read_tail_total maxlen st (f_size st) Hst Hm ltac:(lia) ltac:(lia))
+        as (d & e & st' & Hrt & Hst' & Hm' & Hf' & Hd & Hp & Hl').
+      rewrite Hrt. exists d, e, st'.
+      repeat match goal with |- _ /\ _ => split end; auto.
+Qed.
+
+Lemma framed_read_total maxlen st k :
+  fst_ok st -> 0 <= maxlen -> f_size st <= maxlen -> 0 <= k ->
+  read_post maxlen st k (framed_read maxlen st k).
+Proof.
+  intros Hst Hm0 Hm Hk. unfold framed_read. rewrite framed_read_gen_S.
+  destruct (after_hdr_total maxlen st Hst Hm0 Hm)
+    as [(e & st' & Hr & Hst' & Hz' & Hf' & Hl')|(st1 & Hr & Hst1 & Hm1 & Hf1 & Hl1 & Hsame)]; rewrite Hr.
+  - exists [], (Some e), st'.
+    assert (zlen (@nil Z) <= 0) by (rewrite zlen_nil; lia).
+    assert (length (avail st') + length (@nil Z) <= length (avail st))%nat by (cbn; lia).
+    repeat match goal with |- _ /\ _ => split end; auto; try lia; try discriminate.
+  - pose proof Hst1 as (_ & Hsz1 & _).
+    destruct (f_size st1 <? k) eqn:Es.
+    + apply Z.ltb_lt in Es. unfold make_bytes.
+      replace (f_size st1 <? 0) with false by (symmetry; apply Z.ltb_ge; lia).
+      destruct (framed_read_inner maxlen st1 Hst1 Hm0 Hm1)
+        as (d & e & st' & Hri & Hst' & Hm' & Hf' & Hd & Hp & Hl').
+      rewrite Hri. destruct e as [e|].
+      * exists d, (Some e), st'.
+        repeat match goal with |- _ /\ _ => split end; auto; try lia; try congruence; try discriminate.
+      * exists d, (Some EOther), st'.
+        repeat match goal with |- _ /\ _ => split end; auto; try lia; try congruence; try discriminate.
+    + apply Z.ltb_ge in Es.
+      destruct (read_tail_total maxlen st1 k Hst1 Hm1 Hk Es)
+        as (d & e & st' & Hrt & Hst' & Hm' & Hf' & Hd & Hp & Hl').
+      rewrite Hrt. exists d, e, st'.
+      repeat match goal with |- _ /\ _ => split end; auto; try lia; try congruence.
+Qed.
+
+(** the code before the repair: an oversized header after an empty frame was swallowed *)
+Definition pinned_witness : fstate :=
+  fresh [[0;0;0;0; 255;255;255;255; 65;66;67;68]] EEOF.
+
+Lemma framed_read_pinned_swallows :
+  fst (framed_read_pinned 16384000 pinned_witness 4) = Rd [65;66;67;68] None /\
+  f_size (snd (framed_read_pinned 16384000 pinned_witness 4)) = 4294967292 /\
+  fst (framed_read 16384000 pinned_witness 4) = Rd [] (Some EOther) /\
+  f_size (snd (framed_read 16384000 pinned_witness 4)) = 0.
+Proof. vm_compute. repeat split. Qed.
+
+(** * statements for Props/C05.v *)
+Definition chunking_ok (chunks : list bytes) : Prop :=
+  Forall (fun c : bytes => c <> []) chunks /\ bytes_ok (concat chunks).
+
+Lemma read_frame_chunking maxlen chunks final : chunking_ok chunks ->
+  exists r st', read_frame maxlen (fresh chunks final) = (r, st') /\
+    flat_read_frame maxlen final (concat chunks) = (r, avail st') /\ graceful r /\
+    fst_ok st' /\ (is_ok r = true -> f_size st' = 0).
+Proof.
+  intros [Hc Hb]. destruct (fresh_ok chunks final Hc Hb) as (Hst & Hz & Ha & Hf).
+  destruct (read_frame_flat maxlen _ Hst Hz) as (r & st' & Hr & Hfl & Hst' & Hf' & Hz' & G).
+  exists r, st'. rewrite Hf, Ha in Hfl. auto 10.
+Qed.
+
+Lemma adapter_loop_chunking fuel maxlen chunks final : chunking_ok chunks ->
+  adapter_loop fuel maxlen (fresh chunks final) 0 = flat_adapter_loop fuel maxlen final (concat chunks) 0.
+Proof.
+  intros [Hc Hb]. destruct (fresh_ok chunks final Hc Hb) as (Hst & Hz & Ha & Hf).
+  rewrite adapter_loop_flat by assumption. now rewrite Hf, Ha.
+Qed.
+
+Lemma adapter_loop_closes maxlen chunks final : chunking_ok chunks ->
+  zlen (concat chunks) < 2147483648 ->
+  loop_end_ok (snd (adapter_loop (S (length (concat chunks))) maxlen (fresh chunks final) 0)).
+Proof.
+  intros Hc Hl. rewrite adapter_loop_chunking by assumption.
+  apply flat_adapter_loop_safe; [apply Hc | assumption | lia].
+Qed.
+
+Lemma adapter_loop_abstract fuel chunks : chunking_ok chunks ->
+  conn_end_of (snd (adapter_loop fuel max_frame (fresh chunks EEOF) 0)) = adapter_read_loop fuel (concat chunks).
+Proof.
+  intros Hc. rewrite adapter_loop_chunking by assumption. apply flat_adapter_loop_abstract, Hc.
+Qed.
+
+Lemma accept_loop_total (process : bytes -> res bool) maxlen chunks final :
+  (forall f, graceful (process f)) -> chunking_ok chunks ->
+  let r := accept_loop process (S (length (concat chunks))) maxlen (fresh chunks final) in
+  accept_end_ok (snd r) /\
+  r = flat_accept_loop process (S (length (concat chunks))) maxlen final (concat chunks) /\
+  (exists rest, concat chunks = frames_wire (fst r) ++ rest) /\
+  Forall (fun f => zlen f <= maxlen) (fst r).
+Proof.
+  intros Hp [Hc Hb] r. destruct (fresh_ok chunks final Hc Hb) as (Hst & Hz & Ha & Hf).
+  assert (E : r = flat_accept_loop process (S (length (concat chunks))) maxlen final (concat chunks)).
+  { unfold r. rewrite accept_loop_flat by assumption. now rewrite Hf, Ha. }
+  rewrite E. split; [|split; [reflexivity|]].
+  - apply flat_accept_loop_safe; auto.
+  - destruct (flat_accept_loop_frames process maxlen final (S (length (concat chunks))) (concat chunks) Hb)
+      as (rest & Hr & Hall). split; [exists rest; exact Hr | exact Hall].
+Qed.
+
+Lemma framing_example :
+  let chunks := [[0;0]; [0;2;7]; [8;0;0;0]; [1;9;0;0;0]; [200]] in
+  chunking_ok chunks /\
+  accept_loop (fun _ => Ok true) 20 100 (fresh chunks EEOF) = ([[7;8]; [9]], AcceptReadErr EOther).
+Proof.
+  split; [split; [repeat constructor; discriminate | repeat constructor; lia] | vm_compute; reflexivity].
+Qed.
